@@ -166,6 +166,10 @@ class XorEncodedFile(io.RawIOBase):
         return self.fh.seek(offset, whence)
 
     def read(self, n=-1):
+        if n is None or n < 0:
+            n = -1
+        if n == 0:
+            return b""
         data = b""
         nonce = self.read_nonce()
         while True:
@@ -179,6 +183,9 @@ class XorEncodedFile(io.RawIOBase):
                 break
         if n == -1:
             n = None
+        elif len(data) > n:
+            # we decode in chunks of 4 bytes, put back what was not asked for
+            self.fh.seek(n - len(data), io.SEEK_CUR)
         return data[:n]
 
 
